@@ -124,4 +124,14 @@ PROPS["C05"] = {
     "level_note": "Trusted: Coq kernel/vm_compute; Model/Convolve.v validated on explored cases; table translator; exact arithmetic (float rounding of the running products not modelled).",
 }
 
+PROPS["C07"] = {
+    "translator": True,
+    "corr": "Model.Wavelet.{ana_step,syn_step,daub_analysis,daub_synthesis} vs wavelet::{analyze::Analyze,synthesize::Synthesize}::filter and the kernels of the compiled Daubechies presets (ConfigClone::config, exact rationals from float bits); low-pass tables re-extracted from the source text",
+    "rule": "Analyze<Rat,N> feeding Synthesize<Rat,N> with arbitrary kernels: all kernel pairs over {-1,0,2} for N<=2 with all signals over {-1,1,3}, seeded random rational kernels for N in {1,2,3,4,6,8}; the 20 compiled preset kernel sets (orders 2..20 x f32/f64): exact macro structure (high = alternating-sign reversed low, synthesis = reversed analysis), unit/zero gain and reconstruction residual (f64: 2e-10 / 1e-9, f32: 1e-6 / 2e-6); 11 regenerated table obligations (10 tables: gains and residual <= 1e-9, + the order list); non-trivial = signal longer than the kernel, N >= 2, first sample non-zero (Check/C07.v)",
+    "trusted": _RAT + ["translator/tables.py", "float bits -> rational conversion in the harness", "the macro body (normalise, reverse, alternate signs) is transliterated by hand in Model/Wavelet.v and tied to the compiled presets through the residual/gain bounds and the exact structural relations"],
+    "assumptions": ["reconstruction bound: N >= 1, input bounded by M"],
+    "level_text": "Theorems for all kernels, widths and signals: analysis = the two edge-padded convolutions, synthesis = their sum, the cascade is one FIR filter with the combined kernel r = lowS*lowA + highS*highA (edge padding composes exactly), hence |output(n) - x(n-(N-1))| <= (|r[N-1]-1| + sum_{k != N-1} |r[k]|) * M for every input bounded by M; gain of a kernel on constants = its coefficient sum. Per order, from the tables re-extracted from the Rust source on every run: low-pass gain 1 and high-pass gain 0 within 2e-10 and residual <= 1e-9 (vm_compute over a finite domain the property enumerates); the kernels the compiled f32/f64 presets hold satisfy the same bounds to float precision.",
+    "level_note": "Trusted: Coq kernel/vm_compute; Model/Wavelet.v and Model/Convolve.v validated on explored cases; table translator; exact arithmetic (float rounding of the running filters not modelled).",
+}
+
 NOT_YET = {}
